@@ -29,7 +29,7 @@ pub enum Fam {
 
 pub fn describe(f: Fam, thorough: bool) -> &'static str {
     match (f, thorough) {
-        (Fam::Ebnf, false) => "EBNF(3,1,rules<=3) ∪ EBNF(4,0,rules<=2)",
+        (Fam::Ebnf, false) => "EBNF(3,1,rules<=3) ∪ EBNF(4,0,rules<=2) ∪ REC (6 recursive rules with terminated loops)",
         (Fam::Ebnf, true) => "EBNF(4,1,rules<=3) ∪ EBNF(3,2,rules<=3) ∪ EBNF(5,0,rules<=3)",
         (Fam::Pratt, false) => "PRATT(branches<=2, 2 operator tokens, atoms A and L e R)",
         (Fam::Pratt, true) => "PRATT(branches<=3, 2 operator tokens) ∪ PRATT(branches<=2, 3 operator tokens)",
@@ -51,12 +51,14 @@ pub fn family_of(f: Fam, thorough: bool) -> Vec<Grammar> {
         (Fam::Ebnf, false) => {
             let mut v = ebnf_b(3, 1, 3);
             v.extend(ebnf_b(4, 0, 2));
+            v.extend(rec_family());
             v
         }
         (Fam::Ebnf, true) => {
             let mut v = ebnf_b(4, 1, 3);
             v.extend(ebnf_b(3, 2, 3));
             v.extend(ebnf_b(5, 0, 3));
+            v.extend(rec_family());
             v
         }
         (Fam::Pratt, t) => {
